@@ -126,7 +126,14 @@ AppWrite ==
   /\ appW' = appW + 1
   /\ UNCHANGED <<scen, delivered, gone, st, buf, sentReq, app, appN, done, closed, appLost, exc>>
 
+\* the application asks for a graceful close of its transport; what still arrives before the connection
+\* is gone is relayed all the same
+AppClose ==
+  /\ app /\ ~gone
+  /\ UNCHANGED vars
+
 Next ==
+  \/ AppClose
   \/ \E n \in 1..MaxChunk : Deliver(n)
   \/ Disconnect
   \/ AppWrite /\ appW < 1
